@@ -6,10 +6,12 @@ from vlib import run as vrun, build
 from props._gradcases import CASES
 
 
-def run_alloc(chk, n_seeds, props=("C10", "C11")):
+def run_alloc(chk, n_seeds, props=("C10", "C11"), mode="alloc"):
+    """mode "lazy": only the accounting run of every program (allocations during graph construction, poison, buffers
+    alive), without the failure injected at every allocation."""
     exe = build.build_harness("h_grad")
     base = chk.rng.randrange(1, 10 ** 6)
-    lines = ["alloc %s %s %d" % (d, c, base + s) for c in CASES for s in range(n_seeds) for d in ("naive", "eigen")]
+    lines = ["%s %s %s %d" % (mode, d, c, base + s) for c in CASES for s in range(n_seeds) for d in ("naive", "eigen")]
     outs, reports = vrun.run_impl(exe, lines, timeout=1800)
     chk.traces += 1
     injected = 0
@@ -24,6 +26,8 @@ def run_alloc(chk, n_seeds, props=("C10", "C11")):
         case = l.split()[2]
         if o.startswith("crash"):
             cls, prop = "crash", "C11"
+        elif "node creation computed something" in o:
+            cls, prop = "eager-node-creation", "C05"
         elif "never written" in o:
             cls, prop = "uninitialised-output", "C11"
         elif "alive" in o:
